@@ -514,6 +514,8 @@ String File::simplifyPath(const String& path)
       break;
     start = end + 1;
   }
+  if(result.isEmpty() && startsWithSlash)
+    result.append('/');
   return result;
 }
 
@@ -529,7 +531,8 @@ String File::getRelativePath(const String& from, const String& to)
   String simTo = simplifyPath(to);
   if(simFrom == simTo)
     return String(".");
-  simFrom.append('/');
+  if(simFrom != "/")
+    simFrom.append('/');
   if(String::compare((const char*)simTo, (const char*)simFrom, simFrom.length()) == 0)
     return String((const char*)simTo + simFrom.length(), simTo.length() - simFrom.length());
   String result("../");
